@@ -2148,7 +2148,9 @@ class HDKey(Key):
                 if index < 0:
                     raise BKeyError("Could not parse path. Index must be a positive integer.")
                 if first_public or not key.is_private:
-                    key = key.child_public(index=index, network=network)  # TODO hardened=hardened key?
+                    if hardened:
+                        raise BKeyError("Cannot derive hardened key from a public key")
+                    key = key.child_public(index=index, network=network)
                     first_public = False
                 else:
                     key = key.child_private(index=index, hardened=hardened, network=network)
